@@ -11,7 +11,7 @@ TIMEOUT = {"quick": 900, "thorough": 3000}
 MIN_EVALUATIONS = {"quick": 8000, "thorough": 8000}  # fewer oracle evaluations than this means the workload collapsed: inconclusive
 RULE = ("addresses generated from the data-file grammar: N/B/F/L word form, /bit form, S: and I:/O: forms (with .word), Bf/n for EVERY n in "
         "0..4095, {count} within one packet, T/C .PRE/.ACC/.EN/.TT/.DN/.CU/.CD/.OV/.UN/.UA reads; file numbers incl. 1 and 255, elements incl. 0, "
-        "254 and 255 (which need the FF escape), upper/lower case; random prior data tables; reads are compared with the data table, the PCCC "
+        "254 and 255 (which need the FF escape), upper/lower case; random prior data tables; 2..4 addresses in one read() call (bits of different words of one I/O element, several bits of one word, a word and its bits, unrelated addresses); reads are compared with the data table, the PCCC "
         "command the reference target received (file, type, element, sub-element, size, mask) with what the address denotes; writes (word, "
         "{count}, bit forms; values over the element type) are followed by a diff of the whole data table (only the addressed bit/words may "
         "change) and a read-back; malformed addresses (unknown file letter, file 0/256+, element 256+, bit 16+, Bf/4096+) must raise "
